@@ -50,15 +50,6 @@ Proof.
       * simpl in H. discriminate.
 Qed.
 
-(* strict parsing never builds an error node or error leaf *)
-Fixpoint no_error (t : tree) : bool :=
-  match t with
-  | Leaf (KErrorLeaf _) _ _ _ _ => false
-  | Leaf _ _ _ _ _ => true
-  | Node KErrorNode _ => false
-  | Node _ cs => (fix all (l : list tree) : bool := match l with [] => true | c :: r => no_error c && all r end) cs
-  end.
-
 Lemma feed_sim : forall toks p p',
   feed G TR false p toks = POk p' ->
   forall ic, exists ic', feed G TR true (mkP (stack p) [] ic) toks = POk (mkP (stack p') [] ic').
